@@ -227,7 +227,7 @@ def ext_inst_names(ctx, rp):
         nums = {}
         for e in entries:
             nums.setdefault(e["opcode"], e["opname"])
-        probe = sorted(nums) + [max(nums) + 1, 0xffffffff]
+        probe = sorted(set([0] + sorted(nums) + [max(nums) + 1, 0xffffffff]))
         bad = None
         for num in probe:
             nw = len(name_hex) // 8
